@@ -117,7 +117,7 @@ macro_rules! ctr_two {
             spec::ctr_ks(c.p(), $spec, &iv, pos as u128, &mut ks);
             two_pieces_tail!({
                 let mut core = ctr::CtrCore::<_, ctr::flavors::$flavor>::inner_iv_init(c.clone(), blk::<$bs>(&iv));
-                core.set_block_pos(pos);
+                core.set_block_pos(pos as _);
                 StreamCipherCoreWrapper::from_core(core)
             }, ks, $a, $a, $nmax);
         }
@@ -139,7 +139,7 @@ macro_rules! ctr_three {
             let mut ks = [0u8; NB * B];
             spec::ctr_ks(c.p(), $spec, &iv, pos as u128, &mut ks);
             let mut core = ctr::CtrCore::<_, ctr::flavors::$flavor>::inner_iv_init(c.clone(), blk::<$bs>(&iv));
-            core.set_block_pos(pos);
+            core.set_block_pos(pos as _);
             let mut s = StreamCipherCoreWrapper::from_core(core);
             three_pieces_tail!(s, ks, $n1, $n2, $n3);
         }
@@ -159,7 +159,7 @@ macro_rules! belt_three {
             let mut ks = [0u8; NB * B];
             spec::belt_ks(c.p(), s0, pos, &mut ks);
             let mut core = crate::common::belt_core(c.clone(), &iv);
-            core.set_block_pos(pos);
+            core.set_block_pos(pos as _);
             let mut s = StreamCipherCoreWrapper::from_core(core);
             three_pieces_tail!(s, ks, $n1, $n2, $n3);
         }
